@@ -30,6 +30,8 @@ pub trait Drv: Sized {
     fn enum_cases(&self, ty: &str, el: u32) -> Vec<Vec<Value>>;
     fn enum_case(&self, ty: &str, el: u32) -> Vec<Value>;
     fn close_until_dyn(&mut self, cond: &dyn Fn(&Self) -> bool) -> bool;
+    /// the generated `close()` itself (no condition closure, hence no observation inside the loop)
+    fn close_plain(&mut self);
     /// physical state: index copies, element indices, weights, uprooted lists, dirty flag
     fn physical(&self) -> Value;
 }
@@ -220,6 +222,16 @@ pub fn run_history<M: Drv>(h: &Value, out: &RefCell<Vec<String>>) {
                 let stop: i64 = if op == "close" { -1 } else { s["stop"].as_i64().unwrap_or(-1) };
                 let cond = if op == "close_until" && !s["cond"].is_null() { Some(s["cond"].clone()) } else { None };
                 let tag = s.get("tag").and_then(|t| t.as_str()).unwrap_or("").to_string();
+                let raw = op == "close" && s.get("raw").and_then(|t| t.as_bool()).unwrap_or(false);
+                if raw {
+                    // the public close() as a caller uses it; only its result can be observed
+                    out.borrow_mut().push(json!({"ev":"close_begin","id":id,"until":false,"stop":-1,"cond":{"kind":"none"}}).to_string());
+                    let t0 = std::time::Instant::now();
+                    m.close_plain();
+                    let ms = t0.elapsed().as_millis() as u64;
+                    out.borrow_mut().push(json!({"ev":"close_ret","id":id,"fam":fam,"tag":tag,"ret":false,"nobs":0,"ms":ms,"raw":true,"st":dump(&m, true)}).to_string());
+                    continue;
+                }
                 out.borrow_mut().push(json!({"ev":"close_begin","id":id,"until":op == "close_until","stop":stop,
                     "cond": cond.clone().unwrap_or(json!({"kind":"none"}))}).to_string());
                 let k = Cell::new(0usize);
@@ -244,7 +256,7 @@ pub fn run_history<M: Drv>(h: &Value, out: &RefCell<Vec<String>>) {
                     out.borrow_mut().push(json!({"ev":"budget","id":id,"obs":k.get()}).to_string());
                     return;
                 }
-                out.borrow_mut().push(json!({"ev":"close_ret","id":id,"fam":fam,"tag":tag,"ret":ret,"nobs":k.get(),"ms":ms,"st":dump(&m, !ret)}).to_string());
+                out.borrow_mut().push(json!({"ev":"close_ret","id":id,"fam":fam,"tag":tag,"ret":ret,"nobs":k.get(),"ms":ms,"raw":false,"st":dump(&m, !ret)}).to_string());
             }
             _ => panic!("unknown step {op}"),
         }
